@@ -972,6 +972,7 @@ func (b *BaseStore) appendAndIndex(ctx context.Context, oplog ipfslog.Log, data 
 }
 
 func (b *BaseStore) recalculateReplicationProgress() {
+	verifhook.Point("store.recalc_progress_enter", b.id)
 	max := b.ReplicationStatus().GetMax()
 	if progress := b.ReplicationStatus().GetProgress() + 1; progress < max {
 		max = progress
@@ -981,11 +982,13 @@ func (b *BaseStore) recalculateReplicationProgress() {
 
 	}
 
+	verifhook.Point("store.recalc_progress_read", b.id)
 	b.ReplicationStatus().SetProgress(max)
 	b.verifStatus("progress", 0)
 }
 
 func (b *BaseStore) recalculateReplicationMax(max int) {
+	verifhook.Point("store.recalc_max_enter", b.id)
 	verifArg := max
 	if opLogLen := b.OpLog().Len(); opLogLen > max {
 		max = opLogLen
@@ -995,6 +998,7 @@ func (b *BaseStore) recalculateReplicationMax(max int) {
 		max = replMax
 	}
 
+	verifhook.Point("store.recalc_max_read", b.id)
 	b.ReplicationStatus().SetMax(max)
 	b.verifStatus("max", verifArg)
 }
